@@ -32,7 +32,15 @@ Violations(c) ==
      ELSE IF ~valid THEN {}
      ELSE LET e == Effective(c.def, c.rule)
               okExec == <<e.authn[1].n>> \o Names(e.handlers) \o Names(e.finalizers)
-              failExec == <<e.authn[1].n>> \o (IF Len(e.eh) > 0 THEN <<e.eh[1].n>> ELSE <<>>)
+              \* the error handler that answers: the first of the effective ones whose condition holds; an
+              \* own handler may carry a condition that does not hold for this failure (cond), the default
+              \* rule's handlers are unconditional - and they are not consulted when the rule has own ones
+              ownEh == SelectSeq(c.rule.on_error, LAMBDA h : h.k = "e")
+              answering == IF Len(ownEh) # 0 \/ ~c.def.present
+                           THEN LET app == SelectSeq(ownEh, LAMBDA h : ~h.cond) IN
+                                IF Len(app) > 0 THEN <<app[1].step.n>> ELSE <<>>
+                           ELSE IF Len(e.eh) > 0 THEN <<e.eh[1].n>> ELSE <<>>
+              failExec == <<e.authn[1].n>> \o answering
           IN (IF o.exec_ok # okExec THEN {"effective-pipeline-differs"} ELSE {})
              \cup (IF o.exec_fail # failExec THEN {"effective-error-pipeline-differs"} ELSE {})
              \cup (IF o.bt # EffectiveBt(c.def, c.rule) THEN {"backtracking-setting-differs"} ELSE {})
